@@ -5,6 +5,7 @@ import ast
 from ..engine import rule
 from ..flow import PRUNE, Violation, explore, is_none_const, path_ends, \
     path_is, raising_node, store_value
+from ..model import dotted
 from ..twopc import BLOBSTORAGE, DS, FS, MS, STORAGES, commit_lock_ops, \
     identity_guard
 
@@ -39,8 +40,34 @@ def lock_after(F, node, level):
 # --------------------------------------------------------------- tpc_begin
 
 def check_begin(R, cls, g, F, name):
+    txn = [p for p in g.root.func.params if p != 'self'][:1]
+
+    def reads_txn_metadata(node):
+        """attribute loads on the caller's transaction object: user,
+        description and above all extension_bytes are computed (pickled)
+        lazily and can raise"""
+        if node.ast is None or node.kind not in ('stmt', 'test', 'return'):
+            return None
+        for x in ast.walk(node.ast):
+            if isinstance(x, ast.Attribute) and isinstance(
+                    x.ctx, ast.Load) and isinstance(x.value, ast.Name):
+                p = F.canon(x.value, node.frame)
+                if txn and p == ('%param', txn[0]):
+                    return x.attr
+        return None
+
     def edge(node, st, lab, tgt):
         level, owner = st
+        if level == 1 and not owner and lab != 'e':
+            a = reads_txn_metadata(node)
+            if a is not None:
+                return Violation(
+                    'tpc_begin reads `%s.%s` (transaction metadata is '
+                    'computed lazily and can raise, e.g. unpicklable '
+                    'extended info) after acquiring the commit lock but '
+                    'before registering the transaction as owner: the '
+                    'caller\'s tpc_abort will not match and the lock is '
+                    'never released' % (txn[0], a))
         level = lock_after(F, node, level)
         if isinstance(level, Violation):
             return level
@@ -384,3 +411,107 @@ def r3(R):
     for q in ABORTS:
         cls = R.prog.cls(q)
         check_guard(R, cls, 'tpc_abort', raise_foreign=False)
+
+
+@rule('C05.R4', 'every transaction starts from an empty staging area '
+      '(nothing staged by an aborted or failed transaction can be committed '
+      'by the next one)', props=['C03'], min_instances=2)
+def r4(R):
+    # FileStorage: tpc_begin runs _clear_temp (tindex cleared, tfile rewound)
+    cls = R.prog.cls(FS)
+    f = R.method(cls, 'tpc_begin')
+    g, b, F = R.cfg(f, cls)
+    R.instance('FileStorage.tpc_begin')
+
+    def edge(node, st, lab, tgt):
+        if lab == 'e':
+            return st
+        for op in F.ops(node):
+            if op.kind == 'call' and path_is(op.path,
+                                             ('self', '_tindex', 'clear')):
+                st = st | {'tindex'}
+            if op.kind == 'call' and path_is(op.path,
+                                             ('self', '_tfile', 'seek')) and \
+                    op.ast.args and isinstance(op.ast.args[0], ast.Constant) \
+                    and op.ast.args[0].value == 0:
+                st = st | {'tfile'}
+            if op.kind == 'store' and path_is(op.path, ('self', '_tindex')):
+                st = st | {'tindex'}
+        if node.kind == 'test' and lab in ('T', 'F'):
+            from ..flow import truth_test
+            e, truthy_when_true, _n = truth_test(node.ast)
+            if dotted(e) and F.canon(e, node.frame) == ('self', '_tfile'):
+                if (lab == 'T') != truthy_when_true:
+                    st = st | {'tfile'}      # read-only: no temp file
+        return frozenset(st)
+
+    def at(node, st):
+        if node.id == g.exit_return:
+            missing = {'tindex', 'tfile'} - st
+            if missing:
+                return Violation(
+                    'FileStorage.tpc_begin can return without having '
+                    'emptied the staging area (%s): records staged by a '
+                    'transaction that failed before its abort cleaned up '
+                    'are committed with the next transaction' % ', '.join(
+                        sorted(missing)))
+        return st
+
+    vs, stats = explore(g, frozenset(), at=at, edge=edge)
+    R.count(stats)
+    for v in vs:
+        R.violation((f.module.relpath, f.qualname, 'staging emptied'),
+                    v.message, g, v.path)
+    # MappingStorage: _tdata is fresh at begin, or emptied by abort AND finish
+    ms = R.prog.cls(MS)
+
+    def resets(meth):
+        m = R.method(ms, meth)
+        gg, bb, FF = R.cfg(m, ms, max_depth=0)
+
+        def edge2(node, st, lab, tgt):
+            from ..twopc import identity_guard as ig
+            matched, done = st
+            same = ig(node, FF) if meth != 'tpc_begin' else None
+            if same is not None and lab in ('T', 'F'):
+                return (lab == same, done)
+            if lab != 'e':
+                for op in FF.ops(node):
+                    if op.kind == 'store' and path_is(op.path,
+                                                      ('self', '_tdata')):
+                        v = op.stmt.value if isinstance(op.stmt, ast.Assign) \
+                            else None
+                        if isinstance(v, ast.Dict) and not v.keys or (
+                                isinstance(v, ast.Call) and isinstance(
+                                    v.func, ast.Name) and v.func.id == 'dict'
+                                and not v.args):
+                            done = True
+                    if op.kind == 'call' and path_is(
+                            op.path, ('self', '_tdata', 'clear')):
+                        done = True
+                    if op.kind == 'del' and path_is(op.path,
+                                                    ('self', '_tdata')):
+                        done = True
+            return (matched, done)
+
+        bad = []
+
+        def at2(node, st):
+            if node.id == gg.exit_return and st[0] is not False and \
+                    not st[1]:
+                bad.append(1)
+            return st
+
+        explore(gg, (None, False), at=at2, edge=edge2)
+        return not bad
+
+    R.instance('MappingStorage staging area')
+    if not (resets('tpc_begin') or (resets('tpc_abort') and
+                                    resets('tpc_finish'))):
+        m = R.method(ms, 'tpc_begin')
+        R.violation((m.module.relpath, m.qualname, 'staging emptied'),
+                    'MappingStorage does not start a transaction with an '
+                    'empty staging dictionary (neither tpc_begin resets it, '
+                    'nor both tpc_abort and tpc_finish): data stored by a '
+                    'transaction that failed with a conflict is committed by '
+                    'the next, unrelated transaction')
